@@ -1,6 +1,619 @@
+/-
+  C08 — filtering keeps exactly the selected IDs, intact and in order.
+
+  Three layers.
+  (1) Specification on `Biom.Table`: `filterAxis t mask ax` (mask semantics via `filterMask`,
+      relative order kept, the other axis untouched).
+  (2) The kernel `biom/_filter.pyx` on flat compressed arrays (`Biom.CS`):
+      `mergeRow`   = the scratch-buffer loop of `_make_filter_array_general` WITH its reused buffer,
+      `genMask`    = that function (one predicate call per ID, in order, XOR invert),
+      `idMask`     = the iterable branch of `_filter` (`index[id]` per element, boolean `put`, XOR invert),
+      `removeRows` = `_remove_rows_csr`: in-place compaction, bounds-checked reads and writes,
+      `filterKernel` = `_filter`.
+  (3) `Table.filter` glue (`tableFilter`: conversion to CSR/CSC = the `layout` parameter,
+      `sortIndices`, kernel, re-installation of ids/metadata), `removeEmpty`, `head`.
+
+  `holds*` are the declarative predicates evaluated on what the REAL code was observed to do.
+-/
 import BiomModel.Codec
 open Lean
+
 namespace Biom.C08
-/-- stub: not built yet -/
-def handle (_req : Json) : Codec.R Json := .error "C08: model not built yet"
+
+variable {α : Type}
+
+/-! ## (1) Specification layer -/
+
+/-- the vectors of an axis, in ID order: rows, or columns -/
+def vecs (t : Table α) : Axis → List (List α)
+  | .obs => t.rows
+  | .samp => transposeGrid t.samp.length t.rows
+
+/-- keep the positions of axis `ax` whose mask bit is set; everything else is untouched -/
+def filterAxis (t : Table α) (mask : List Bool) : Axis → Table α
+  | .obs => { t with obs := filterMask t.obs mask, rows := filterMask t.rows mask,
+                     omd := t.omd.map (filterMask · mask) }
+  | .samp => { t with samp := filterMask t.samp mask, rows := t.rows.map (filterMask · mask),
+                      smd := t.smd.map (filterMask · mask) }
+
+/-- what a user predicate is given: the dense vector, the ID, the metadata entry (`None` when the
+axis has no metadata) -/
+abbrev Pred (α : Type) := List α → Id → Option Md → Bool
+
+structure Call (α : Type) where
+  vec : List α
+  id : Id
+  md : Option Md
+  deriving Repr, DecidableEq, BEq
+
+/-- the `ids_to_keep` argument: an iterable of IDs, a function, or anything else (`TypeError`) -/
+inductive Keep (α : Type) where
+  | ids (l : List Id)
+  | pred (p : Pred α)
+  | other
+
+/-- metadata as the kernel indexes it: `(None,) * len(ids)` when absent -/
+def mdArgs (md : Option (List Md)) (n : Nat) : List (Option Md) :=
+  match md with
+  | none => List.replicate n none
+  | some l => l.map some
+
+/-! ## (2) Kernel layer -/
+
+/-- scratch-buffer merge loop of `_make_filter_array_general` (pyx:41-52).
+`prev` is the buffer as the previous vector left it; position `j` is rewritten only in the first two
+branches — in the third (`j > indices[start]`) the stale value survives. -/
+def mergeRow [Zero α] : (prev : List α) → (ents : List (Nat × α)) → (j : Nat) → List α
+  | [], _, _ => []
+  | _ :: ps, [], j => 0 :: mergeRow ps [] (j + 1)
+  | p :: ps, (c, v) :: es, j =>
+      if j < c then 0 :: mergeRow ps ((c, v) :: es) (j + 1)
+      else if j = c then v :: mergeRow ps es (j + 1)
+      else p :: mergeRow ps ((c, v) :: es) (j + 1)
+
+/-- `_make_filter_array_general`: for every ID in order — read `indptr[i], indptr[i+1]`
+(bounds-checked), rebuild the vector into the reused buffer, call the predicate, XOR with invert. -/
+def genMask [Zero α] (p : Pred α) (invert : Bool) (cs : CS α) :
+    Nat → List Id → List (Option Md) → List α → Except Err (List Bool × List (Call α))
+  | _, [], _, _ => .ok ([], [])
+  | _, _ :: _, [], _ => .error .index
+  | i, id :: ids, md :: mds, buf =>
+    if i + 1 < cs.indptr.length then
+      let v := mergeRow buf (cs.slice i) 0
+      match genMask p invert cs (i + 1) ids mds v with
+      | .ok (bs, calls) => .ok ((p v id md ^^ invert) :: bs, ⟨v, id, md⟩ :: calls)
+      | .error e => .error e
+    else .error .index
+
+/-- `idx = [index[id_] for id_ in ids_to_keep]` — `KeyError` at the first unknown ID -/
+def lookupAll (ids : List Id) : List Id → Except Err (List Nat)
+  | [] => .ok []
+  | k :: ks =>
+    match indexOf? ids k with
+    | none => .error .key
+    | some i =>
+      match lookupAll ids ks with
+      | .ok is => .ok (i :: is)
+      | .error e => .error e
+
+/-- `zeros(len(ids), bool).put(idx, True)` then `bitwise_xor(·, invert)` -/
+def idMask (ids keep : List Id) (invert : Bool) : Except Err (List Bool) :=
+  match lookupAll ids keep with
+  | .error e => .error e
+  | .ok idx => .ok ((idx.foldl (fun m i => m.set i true) (List.replicate ids.length false)).map (· ^^ invert))
+
+/-- state of `_remove_rows_csr` (pyx:60-87) -/
+structure RR (α : Type) where
+  indptr : List Nat
+  indices : List Nat
+  data : List α
+  nnz : Nat := 0
+  offset : Nat := 0
+  offsetRows : Nat := 0
+  deriving Repr
+
+/-- `for j in range(start, end): data[j-offset] = data[j]; indices[j-offset] = indices[j]` -/
+def rrInner (s : RR α) : (j len : Nat) → Except Err (RR α)
+  | _, 0 => .ok s
+  | j, len + 1 =>
+    match getE s.data j, getE s.indices j with
+    | .ok d, .ok i =>
+      match putE s.data (j - s.offset) d, putE s.indices (j - s.offset) i with
+      | .ok data, .ok indices => rrInner { s with data := data, indices := indices } (j + 1) len
+      | _, _ => .error .index
+    | _, _ => .error .index
+
+/-- one iteration of `for row in range(m)` -/
+def rrRow (s : RR α) (row : Nat) (keep : Bool) : Except Err (RR α) :=
+  match getE s.indptr row, getE s.indptr (row + 1) with
+  | .ok start, .ok stop =>
+    if keep then
+      match putE s.indptr (row - s.offsetRows) s.nnz with
+      | .ok indptr1 =>
+        match putE indptr1 (row - s.offsetRows + 1) (s.nnz + (stop - start)) with
+        | .ok indptr2 =>
+          rrInner { s with indptr := indptr2, nnz := s.nnz + (stop - start) } start (stop - start)
+        | .error e => .error e
+      | .error e => .error e
+    else .ok { s with offset := s.offset + (stop - start), offsetRows := s.offsetRows + 1 }
+  | _, _ => .error .index
+
+def rrLoop (s : RR α) : (row : Nat) → List Bool → Except Err (RR α)
+  | _, [] => .ok s
+  | row, b :: bs =>
+    match rrRow s row b with
+    | .ok s' => rrLoop s' (row + 1) bs
+    | .error e => .error e
+
+/-- `_remove_rows_csr`: `booleans[row]` is read for `row < m` (bounds-checked), the arrays are
+compacted in place and finally sliced `[:nnz]`, `[:nnz]`, `[:m-offset_rows+1]`. -/
+def removeRows (cs : CS α) (mask : List Bool) : Except Err (CS α) :=
+  if mask.length < cs.nMajor then .error .index
+  else
+    match rrLoop { indptr := cs.indptr, indices := cs.indices, data := cs.data } 0 (mask.take cs.nMajor) with
+    | .ok s => .ok { nMajor := cs.nMajor - s.offsetRows, nMinor := cs.nMinor,
+                     indptr := s.indptr.take (cs.nMajor - s.offsetRows + 1),
+                     indices := s.indices.take s.nnz, data := s.data.take s.nnz }
+    | .error e => .error e
+
+structure KOut (α : Type) where
+  cs : CS α
+  ids : List Id
+  md : Option (List Md)
+  calls : List (Call α)
+
+/-- `_filter(arr, ids, metadata, index, ids_to_keep, axis, invert)`; `arr` already compressed along
+the filtered axis (major = the filtered axis), `index` = position of each (distinct) ID. -/
+def filterKernel [Zero α] (cs : CS α) (ids : List Id) (md : Option (List Md)) (keep : Keep α)
+    (invert : Bool) : Except Err (KOut α) :=
+  let maskCalls : Except Err (List Bool × List (Call α)) :=
+    match keep with
+    | .ids l => (match idMask ids l invert with | .ok m => .ok (m, []) | .error e => .error e)
+    | .pred p => genMask p invert cs 0 ids (mdArgs md ids.length) (List.replicate cs.nMinor 0)
+    | .other => .error .type
+  match maskCalls with
+  | .error e => .error e
+  | .ok (mask, calls) =>
+    match removeRows cs mask with
+    | .error e => .error e
+    | .ok cs' => .ok { cs := cs', ids := filterMask ids mask, md := md.map (filterMask · mask), calls := calls }
+
+/-! ### Functional twins used by the theorems (and by scipy's `sort_indices` model) -/
+
+/-- prefix sums: `psums a [l₀,l₁,…] = [a, a+l₀, a+l₀+l₁, …]` -/
+def psums : Nat → List Nat → List Nat
+  | a, [] => [a]
+  | a, l :: ls => a :: psums (a + l) ls
+
+/-- the compressed matrix whose major vectors are the given entry lists, in that storage order -/
+def ofSlices (nMinor : Nat) (sl : List (List (Nat × α))) : CS α :=
+  { nMajor := sl.length, nMinor := nMinor, indptr := psums 0 (sl.map List.length),
+    indices := (sl.map (·.map (·.1))).flatten, data := (sl.map (·.map (·.2))).flatten }
+
+def slices (cs : CS α) : List (List (Nat × α)) := (List.range cs.nMajor).map cs.slice
+
+/-- functional twin of `removeRows`: append the kept slices, prefix sums as the new `indptr` -/
+def keptSlices (cs : CS α) (mask : List Bool) : CS α :=
+  ofSlices cs.nMinor (filterMask (slices cs) mask)
+
+def insertEnt (e : Nat × α) : List (Nat × α) → List (Nat × α)
+  | [] => [e]
+  | x :: xs => if e.1 ≤ x.1 then e :: x :: xs else x :: insertEnt e xs
+
+def sortEnts : List (Nat × α) → List (Nat × α)
+  | [] => []
+  | e :: es => insertEnt e (sortEnts es)
+
+/-- scipy `sort_indices()`: inside every major vector the entries are ordered by minor index -/
+def sortIndices (cs : CS α) : CS α := ofSlices cs.nMinor ((slices cs).map sortEnts)
+
+/-! ## (3) `Table.filter`, `remove_empty`, `head` -/
+
+/-- `Table.filter` up to the result table.  `layout` is what `tocsr()` / `tocsc()` returned for the
+receiver's matrix (any well-formed layout of the same content; after a reordering its indices are
+unsorted); it is sorted, handed to the kernel, and ids / metadata / matrix are installed. -/
+def tableFilter [Zero α] (t : Table α) (layout : CS α) (ax : Axis) (keep : Keep α) (invert : Bool) :
+    Except Err (Table α × List (Call α)) :=
+  match filterKernel (sortIndices layout) (t.ids ax) (t.md ax) keep invert with
+  | .error e => .error e
+  | .ok out =>
+    match ax with
+    | .obs => .ok ({ t with obs := out.ids, omd := out.md, rows := out.cs.toDense }, out.calls)
+    | .samp => .ok ({ t with samp := out.ids, smd := out.md,
+                             rows := transposeGrid t.obs.length out.cs.toDense }, out.calls)
+
+structure FilterOut (α : Type) where
+  /-- what the call returned, or the error class it raised -/
+  result : Except Err (Table α)
+  /-- the receiver afterwards -/
+  after : Table α
+  calls : List (Call α)
+
+/-- the whole call including the `inplace` flag: the receiver becomes the result only when the
+kernel succeeded and `inplace` is set; an error is raised before anything is assigned -/
+def filterCall [Zero α] (t : Table α) (layout : CS α) (ax : Axis) (keep : Keep α) (invert inplace : Bool) :
+    FilterOut α :=
+  match tableFilter t layout ax keep invert with
+  | .error e => { result := .error e, after := t, calls := [] }
+  | .ok (r, calls) => { result := .ok r, after := if inplace then r else t, calls := calls }
+
+def nonEmptyVec [Zero α] [DecidableEq α] (v : List α) : Bool := v.any (fun x => decide (x ≠ 0))
+
+/-- one axis of `remove_empty`: count the non-zero cells per vector, keep the IDs with a positive count -/
+def removeEmptyAxis [Zero α] [DecidableEq α] (t : Table α) (layout : CS α) (ax : Axis) :
+    Except Err (Table α) :=
+  let keep := filterMask (t.ids ax) ((vecs t ax).map nonEmptyVec)
+  match tableFilter t layout ax (.ids keep) false with
+  | .ok (r, _) => .ok r
+  | .error e => .error e
+
+/-- `head(n, m)`: refuse non-positive sizes, then filter observations by the leading `n` IDs and
+samples by the leading `m` IDs -/
+def head [Zero α] (t : Table α) (layoutObs : CS α) (layoutSamp : Table α → CS α) (n m : Int) :
+    Except Err (Table α) :=
+  if n ≤ 0 ∨ m ≤ 0 then .error .index
+  else
+    match tableFilter t layoutObs .obs (.ids (t.obs.take n.toNat)) false with
+    | .error e => .error e
+    | .ok (t1, _) =>
+      match tableFilter t1 (layoutSamp t1) .samp (.ids (t.samp.take m.toNat)) false with
+      | .error e => .error e
+      | .ok (t2, _) => .ok t2
+
+/-! ## The property, stated on observations only -/
+
+def errOf {β : Type} : Except Err β → Option Err
+  | .ok _ => none
+  | .error e => some e
+
+/-- the true dense vector and metadata of an ID, looked up by ID in the table before the call -/
+def trueCall (t : Table α) (ax : Axis) (id : Id) : Option (Call α) :=
+  (t.vec? ax id).map (fun v => ⟨v, id, t.mdOf? ax id⟩)
+
+/-- the IDs that must remain, in original order -/
+def keptIds [DecidableEq α] (t : Table α) (ax : Axis) (keep : Keep α) (invert : Bool) : List Id :=
+  match keep with
+  | .ids l => (t.ids ax).filter (fun id => l.contains id ^^ invert)
+  | .pred p => (t.ids ax).filter (fun id =>
+      match t.vec? ax id with
+      | some v => p v id (t.mdOf? ax id) ^^ invert
+      | none => false)
+  | .other => []
+
+open Codec in
+/-- clauses about a result table `r` that must be `t` restricted to `kept` on axis `ax` -/
+def resultClauses [DecidableEq α] (t r : Table α) (ax : Axis) (kept : List Id) : Verdict :=
+  allV [
+    chk "result-shape" r.wfb,
+    chk "kept-ids-in-order" (r.ids ax == kept),
+    chk "other-axis-ids" (r.ids ax.other == t.ids ax.other),
+    chk "vectors-by-id" (kept.all (fun id => r.vec? ax id == t.vec? ax id)),
+    chk "metadata-by-id" (((r.md ax).isSome == (t.md ax).isSome) && kept.all (fun id => r.mdOf? ax id == t.mdOf? ax id)),
+    chk "other-axis-metadata" (r.md ax.other == t.md ax.other),
+    chk "type" (r.ttype == t.ttype)]
+
+structure FilterObs (α : Type) where
+  result : Except Err (Table α)
+  after : Table α
+  calls : List (Call α)
+  /-- predicate requests only: what filtering by the list of accepted IDs returned -/
+  viaIds : Option (Except Err (Table α))
+
+open Codec in
+def verdictFilter [DecidableEq α] (t : Table α) (ax : Axis) (keep : Keep α) (invert inplace : Bool)
+    (o : FilterObs α) : Verdict :=
+  match keep with
+  | .other => chk "non-iterable-non-function-is-an-error" ((errOf o.result).isSome && o.after == t)
+  | .ids l =>
+    if l.all (fun id => (t.ids ax).contains id) then
+      match o.result with
+      | .error _ => some "known-ids-must-not-raise"
+      | .ok r => allV [resultClauses t r ax (keptIds t ax keep invert),
+                       chk "no-predicate-calls" (o.calls == []),
+                       chk "receiver" (o.after == (if inplace then r else t))]
+    else
+      allV [chk "unknown-id-is-an-error" (errOf o.result).isSome,
+            chk "unknown-id-leaves-table-unchanged" (o.after == t)]
+  | .pred _ =>
+    match o.result with
+    | .error _ => some "predicate-filter-must-not-raise"
+    | .ok r => allV [
+        chk "calls-every-id-once-in-order" (o.calls.map (·.id) == t.ids ax),
+        chk "calls-true-vector" (o.calls.all (fun c => t.vec? ax c.id == some c.vec)),
+        chk "calls-metadata" (o.calls.all (fun c => t.mdOf? ax c.id == c.md)),
+        resultClauses t r ax (keptIds t ax keep invert),
+        chk "receiver" (o.after == (if inplace then r else t)),
+        chk "predicate-equals-idlist"
+          (match o.viaIds with
+           | some (.ok r2) => r2 == r
+           | _ => false)]
+
+def holdsFilter [DecidableEq α] (t : Table α) (ax : Axis) (keep : Keep α) (invert inplace : Bool)
+    (o : FilterObs α) : Bool :=
+  (verdictFilter t ax keep invert inplace o).isNone
+
+/-- which axes `remove_empty(axis=…)` works on -/
+inductive REAxis where
+  | one (ax : Axis)
+  | whole
+  deriving Repr, DecidableEq
+
+def REAxis.touches : REAxis → Axis → Bool
+  | .one a, b => a == b
+  | .whole, _ => true
+
+structure CallObs (α : Type) where
+  result : Except Err (Table α)
+  after : Table α
+
+/-- the IDs of an axis whose vector holds a non-zero cell -/
+def nonEmptyIds [Zero α] [DecidableEq α] (t : Table α) (ax : Axis) : List Id :=
+  (t.ids ax).filter (fun id => match t.vec? ax id with | some v => nonEmptyVec v | none => false)
+
+open Codec in
+def verdictRemoveEmpty [Zero α] [DecidableEq α] (t : Table α) (which : REAxis) (inplace : Bool)
+    (o : CallObs α) : Verdict :=
+  match o.result with
+  | .error _ => some "remove-empty-must-not-raise"
+  | .ok r =>
+    let eo := if which.touches .obs then nonEmptyIds t .obs else t.obs
+    let es := if which.touches .samp then nonEmptyIds t .samp else t.samp
+    allV [
+      chk "result-shape" r.wfb,
+      chk "exactly-the-nonzero-observations" (r.obs == eo),
+      chk "exactly-the-nonzero-samples" (r.samp == es),
+      chk "cells-by-id" (eo.all (fun o => es.all (fun s => r.cell? o s == t.cell? o s))),
+      chk "metadata-by-id" (((r.omd.isSome == t.omd.isSome) && eo.all (fun o => r.mdOf? .obs o == t.mdOf? .obs o)) &&
+                            ((r.smd.isSome == t.smd.isSome) && es.all (fun s => r.mdOf? .samp s == t.mdOf? .samp s))),
+      chk "type" (r.ttype == t.ttype),
+      chk "receiver" (o.after == (if inplace then r else t))]
+
+def holdsRemoveEmpty [Zero α] [DecidableEq α] (t : Table α) (which : REAxis) (inplace : Bool)
+    (o : CallObs α) : Bool :=
+  (verdictRemoveEmpty t which inplace o).isNone
+
+open Codec in
+def verdictHead [DecidableEq α] (t : Table α) (n m : Int) (o : CallObs α) : Verdict :=
+  if n ≤ 0 ∨ m ≤ 0 then
+    allV [chk "non-positive-size-is-an-error" (errOf o.result).isSome, chk "receiver-unchanged" (o.after == t)]
+  else
+    match o.result with
+    | .error _ => some "head-must-not-raise"
+    | .ok r =>
+      let eo := t.obs.take n.toNat
+      let es := t.samp.take m.toNat
+      allV [
+        chk "result-shape" r.wfb,
+        chk "leading-n-observations" (r.obs == eo),
+        chk "leading-m-samples" (r.samp == es),
+        chk "cells-by-id" (eo.all (fun o => es.all (fun s => r.cell? o s == t.cell? o s))),
+        chk "metadata-by-id" (((r.omd.isSome == t.omd.isSome) && eo.all (fun o => r.mdOf? .obs o == t.mdOf? .obs o)) &&
+                              ((r.smd.isSome == t.smd.isSome) && es.all (fun s => r.mdOf? .samp s == t.mdOf? .samp s))),
+        chk "type" (r.ttype == t.ttype),
+        chk "receiver-unchanged" (o.after == t)]
+
+def holdsHead [DecidableEq α] (t : Table α) (n m : Int) (o : CallObs α) : Bool :=
+  (verdictHead t n m o).isNone
+
+/-- kernel level, ID collections: the output is a well-formed matrix whose dense content is the
+input's content restricted to the requested vectors; ids and metadata are compressed alike -/
+def holdsKernelIds [Zero α] [DecidableEq α] (cs : CS α) (ids : List Id) (md : Option (List Md))
+    (keep : List Id) (invert : Bool) (out : Except Err (KOut α)) : Bool :=
+  if keep.all (fun id => ids.contains id) then
+    match out with
+    | .error _ => false
+    | .ok o =>
+      let mask := ids.map (fun id => keep.contains id ^^ invert)
+      o.cs.wfb && o.cs.toDense == filterMask cs.toDense mask && o.cs.nMinor == cs.nMinor &&
+      o.ids == filterMask ids mask && o.md == md.map (filterMask · mask) && o.calls == []
+  else (errOf out).isSome
+
+/-! ## The model's observations -/
+
+def acceptedIds [Zero α] (t : Table α) (ax : Axis) (p : Pred α) : List Id :=
+  (t.ids ax).filter (fun id =>
+    match t.vec? ax id with
+    | some v => p v id (t.mdOf? ax id)
+    | none => false)
+
+/-- what the model says the harness will observe for one `filter` request -/
+def modelFilterObs [Zero α] (t : Table α) (layout : CS α) (ax : Axis) (keep : Keep α) (invert inplace : Bool) :
+    FilterObs α :=
+  let o := filterCall t layout ax keep invert inplace
+  { result := o.result, after := o.after, calls := o.calls,
+    viaIds := match keep with
+      | .pred p => some (filterCall t layout ax (.ids (acceptedIds t ax p)) invert false).result
+      | _ => none }
+
+/-- `remove_empty`: samples first, then observations, for `whole`; the intermediate layouts are
+whatever scipy holds at that point (`layoutOf`) -/
+def removeEmpty [Zero α] [DecidableEq α] (t : Table α) (layoutOf : Table α → Axis → CS α) (which : REAxis) :
+    Except Err (Table α) :=
+  match which with
+  | .one ax => removeEmptyAxis t (layoutOf t ax) ax
+  | .whole =>
+    match removeEmptyAxis t (layoutOf t .samp) .samp with
+    | .error e => .error e
+    | .ok t1 => removeEmptyAxis t1 (layoutOf t1 .obs) .obs
+
+def modelCallObs (t : Table α) (r : Except Err (Table α)) (inplace : Bool) : CallObs α :=
+  { result := r, after := match r with | .ok x => if inplace then x else t | .error _ => t }
+
+/-- canonical layout used by the driver when the harness does not supply the real one -/
+def canonLayout [Zero α] [DecidableEq α] (t : Table α) (ax : Axis) : CS α :=
+  CS.ofDense (t.ids ax.other).length (vecs t ax)
+
+/-! ## JSON glue -/
+open Codec
+
+def sumR (v : List Rat) : Rat := v.foldr (· + ·) 0
+def wsumR (v : List Rat) : Rat := (v.zipIdx.map (fun p => ((p.2 + 1 : Nat) : Rat) * p.1)).foldr (· + ·) 0
+
+/-- the named predicate family; each has a Python twin in `harness/c08.py` -/
+def namedPred (name : String) (k : Rat) (idset : List Id) (key val : String) : Pred Rat :=
+  fun v id md =>
+    match name with
+    | "true" => true
+    | "false" => false
+    | "sum_gt" => decide (sumR v > k)
+    | "wsum_gt" => decide (wsumR v > k)
+    | "first_nz" => (match v.head? with | some x => x != 0 | none => false)
+    | "last_pos" => (match v.getLast? with | some x => decide (x > 0) | none => false)
+    | "nnz_ge" => decide ((((v.filter (· != 0)).length : Nat) : Rat) ≥ k)
+    | "id_in" => idset.contains id
+    | "md_eq" => (match md with | some m => m.lookup key == some val | none => false)
+    | "mix" => (idset.contains id) ^^ (decide (wsumR v > k))
+    | _ => false
+
+def asKeep (j : Json) : R (Keep Rat) := do
+  match (← strF j "kind") with
+  | "ids" => pure (.ids (← listF asStr j "ids"))
+  | "other" => pure .other
+  | "pred" =>
+    let name ← strF j "name"
+    let k ← match optFld j "k" with | some v => asRat v | none => pure 0
+    let idset ← match optFld j "ids" with | some v => asList asStr v | none => pure []
+    let key ← strFD j "key" ""
+    let val ← strFD j "val" ""
+    pure (.pred (namedPred name k idset key val))
+  | s => .error s!"bad keep kind {s}"
+
+def asResult (j : Json) : R (Except Err (Table Rat)) :=
+  match optFld j "ok", optFld j "error" with
+  | some t, _ => do pure (.ok (← asTable t))
+  | none, some e => do pure (.error (asErr (← asStr e)))
+  | none, none => .error "result needs ok or error"
+
+def asCall (j : Json) : R (Call Rat) := do
+  pure { vec := (← listF asRat j "vec"), id := (← strF j "id"), md := (← optF asMd j "md") }
+
+def callToJson (c : Call Rat) : Json :=
+  Json.mkObj [("vec", ratsToJson c.vec), ("id", .str c.id), ("md", optToJson mdToJson c.md)]
+
+def resultToJson (r : Except Err (Table Rat)) : Json := exceptToJson tableToJson r
+
+def mdListToJson (m : Option (List Md)) : Json := optToJson (fun m => .arr (m.map mdToJson).toArray) m
+
+def asREAxis (j : Json) : R REAxis := do
+  match (← asStr j) with
+  | "whole" => pure .whole
+  | "observation" => pure (.one .obs)
+  | "sample" => pure (.one .samp)
+  | s => .error s!"bad remove_empty axis {s}"
+
+def answer (v : Verdict) (agree : Bool) (model : Json) (extra : List (String × Json) := []) : Json :=
+  Json.mkObj (verdictToJson v ++ [("agree", .bool agree), ("model", model)] ++ extra)
+
+def resEq (a b : Except Err (Table Rat)) : Bool :=
+  match a, b with
+  | .ok x, .ok y => x == y
+  | .error e, .error f => e == f
+  | _, _ => false
+
+def handleFilter (req : Json) : R Json := do
+  let t ← asTable (← fld req "t")
+  let ax ← axisF req "axis"
+  let keep ← asKeep (← fld req "keep")
+  let invert ← boolF req "invert"
+  let inplace ← boolF req "inplace"
+  let layout ← match optFld req "layout" with | some l => asCS l | none => pure (canonLayout t ax)
+  let oj ← fld req "obs"
+  let calls ← listF asCall oj "calls"
+  let rets ← listF (fun c => boolFD c "ret" false) oj "calls"
+  let obs : FilterObs Rat := {
+    result := (← asResult (← fld oj "result")), after := (← asTable (← fld oj "after")), calls := calls,
+    viaIds := (← optF asResult oj "via_ids") }
+  let v := verdictFilter t ax keep invert inplace obs
+  let m := modelFilterObs t layout ax keep invert inplace
+  let agree := resEq m.result obs.result && m.after == obs.after && m.calls == obs.calls &&
+    (match m.viaIds, obs.viaIds with
+     | some a, some b => resEq a b
+     | none, none => true
+     | _, _ => false)
+  -- the Lean twin of the named predicate must give the verdict the Python twin gave on the same arguments
+  let twinOk := match keep with
+    | .pred p => (calls.zip rets).all (fun cr => p cr.1.vec cr.1.id cr.1.md == cr.2)
+    | _ => true
+  let mj := Json.mkObj [("result", resultToJson m.result), ("after", tableToJson m.after),
+    ("calls", .arr (m.calls.map callToJson).toArray),
+    ("via_ids", optToJson resultToJson m.viaIds)]
+  pure (answer v agree mj [("twin_ok", .bool twinOk),
+    ("model_holds", .bool (holdsFilter t ax keep invert inplace m))])
+
+def handleRemoveEmpty (req : Json) : R Json := do
+  let t ← asTable (← fld req "t")
+  let which ← asREAxis (← fld req "axis")
+  let inplace ← boolF req "inplace"
+  let oj ← fld req "obs"
+  let obs : CallObs Rat := { result := (← asResult (← fld oj "result")), after := (← asTable (← fld oj "after")) }
+  let v := verdictRemoveEmpty t which inplace obs
+  let m := modelCallObs t (removeEmpty t canonLayout which) inplace
+  let agree := resEq m.result obs.result && m.after == obs.after
+  pure (answer v agree (Json.mkObj [("result", resultToJson m.result), ("after", tableToJson m.after)])
+    [("model_holds", .bool (holdsRemoveEmpty t which inplace m))])
+
+def handleHead (req : Json) : R Json := do
+  let t ← asTable (← fld req "t")
+  let n ← intF req "n"
+  let m ← intF req "m"
+  let oj ← fld req "obs"
+  let obs : CallObs Rat := { result := (← asResult (← fld oj "result")), after := (← asTable (← fld oj "after")) }
+  let v := verdictHead t n m obs
+  let mo := modelCallObs t (head t (canonLayout t .obs) (fun t1 => canonLayout t1 .samp) n m) false
+  let agree := resEq mo.result obs.result && mo.after == obs.after
+  pure (answer v agree (Json.mkObj [("result", resultToJson mo.result), ("after", tableToJson mo.after)])
+    [("model_holds", .bool (holdsHead t n m mo))])
+
+def koutToJson (o : KOut Rat) : Json :=
+  Json.mkObj [("cs", csToJson o.cs), ("ids", strsToJson o.ids), ("md", mdListToJson o.md),
+    ("calls", .arr (o.calls.map callToJson).toArray)]
+
+def asKOut (j : Json) : R (Except Err (KOut Rat)) :=
+  match optFld j "ok", optFld j "error" with
+  | some o, _ => do
+    pure (.ok { cs := (← asCS (← fld o "cs")), ids := (← listF asStr o "ids"),
+                md := (← optF (asList asMd) o "md"), calls := (← listF asCall o "calls") })
+  | none, some e => do pure (.error (asErr (← asStr e)))
+  | none, none => .error "kernel obs needs ok or error"
+
+def koutEq (a b : Except Err (KOut Rat)) : Bool :=
+  match a, b with
+  | .ok x, .ok y => x.cs == y.cs && x.ids == y.ids && x.md == y.md && x.calls == y.calls
+  | .error e, .error f => e == f
+  | _, _ => false
+
+/-- kernel request: flat arrays in, flat arrays out, compared EXACTLY with the model -/
+def handleKernel (req : Json) : R Json := do
+  let cs ← asCS (← fld req "cs")
+  let ids ← listF asStr req "ids"
+  let md ← optF (asList asMd) req "md"
+  let keep ← asKeep (← fld req "keep")
+  let invert ← boolF req "invert"
+  let obs ← asKOut (← fld req "obs")
+  let m := filterKernel cs ids md keep invert
+  let v : Verdict := match keep with
+    | .ids l => if cs.wfb && ids.length == cs.nMajor then
+        chk "kernel-output-is-the-restriction" (holdsKernelIds cs ids md l invert obs) else none
+    | _ => none
+  let sorted := (List.range cs.nMajor).all (fun i => decide (((cs.slice i).map (·.1)).Pairwise (· < ·)))
+  pure (answer v (koutEq m obs) (exceptToJson koutToJson m)
+    [("wf", .bool cs.wfb), ("sorted", .bool sorted)])
+
+def handleOne (req : Json) : R Json := do
+  match (← strF req "op") with
+  | "filter" => handleFilter req
+  | "remove_empty" => handleRemoveEmpty req
+  | "head" => handleHead req
+  | "kernel" => handleKernel req
+  | s => .error s!"bad op {s}"
+
+/-- one request, or `{"op":"batch","cases":[…]}` → `{"results":[…]}` -/
+def handle (req : Json) : R Json := do
+  match (← strF req "op") with
+  | "batch" => do
+    let cases ← listF pure req "cases"
+    let rs ← cases.mapM handleOne
+    pure (Json.mkObj [("results", .arr rs.toArray)])
+  | _ => handleOne req
+
 end Biom.C08
